@@ -103,8 +103,13 @@ def rule_builder(ck: Check, repo: Repo) -> None:
 
     anchored: list = []
 
+    def unblank(text: str) -> str:
+        # removing the blanks around the statement first is not a different notice
+        return text.replace("statement.strip()", "statement")
+
     class H(Hooks):
         def atom(self, text, node, it):
+            text = unblank(text)
             if text == "'\\n' in statement":
                 return "newline"
             if text == "_COPYRIGHT_PREFIXES.get(copyright_prefix) is None":
@@ -142,6 +147,8 @@ def rule_builder(ck: Check, repo: Repo) -> None:
                     " then takes 'Copyright Holders' for the notice and 'The ' is lost at the next merge", repo.loc(fn))
     for d, leaf, expected in leaves:
         got = leaf.outcome[:2]
+        if len(got) == 2 and isinstance(got[1], str):
+            got = (got[0], unblank(got[1]))
         r.instance("path:" + show_valuation(d), {"valuation": show_valuation(d), "outcome": got})
         if got != expected:
             r.violation(q, f"[{show_valuation(d)}]", f"builds {got}, the specification says {expected}", repo.loc(fn),
@@ -368,7 +375,13 @@ def rule_get_year(ck: Check, repo: Repo, rid: str = "R4") -> None:
     ctor = [c for n in ast.walk(g) if isinstance(n, ast.Return) and isinstance(n.value, ast.Call) for c in [n.value]]
     ok = False
     if len(ctor) == 1 and ast.unparse(ctor[0].func) == "ReuseInfo":
-        got = {k: (deep_text(g, _kw(ctor[0], k)) if _kw(ctor[0], k) is not None else None)
+        def plain(node):
+            """Blank-stripping of an element does not change which option feeds which field."""
+            from ..rules import unstrip
+            return ast.unparse(unstrip(node, fold_to_iterable=False))
+
+        from ..rules import resolve_deep as _rd
+        got = {k: (plain(_rd(g, _kw(ctor[0], k))) if _kw(ctor[0], k) is not None else None)
                for k in ("spdx_expressions", "copyright_lines", "contributor_lines")}
         cl = got["copyright_lines"] or ""
         m = re.fullmatch(r"\{(make_copyright_line\(.*\)) for (\w+) in copyrights\}", cl)
